@@ -98,11 +98,39 @@ tok_impl!(C2, 2, |t| C2(t), |s: &C2| s.0, |s: &mut C2, t| s.0 = t, |t| t);
 tok_impl!(C3, 3, |t| C3(Box::new(t)), |s: &C3| *s.0, |s: &mut C3, t| *s.0 = t, |t| t);
 tok_impl!(C4, 4, |t| C4(t as u32), |s: &C4| s.0 as u64, |s: &mut C4, t| s.0 = t as u32, |t: u64| t & 0xffff_ffff);
 
+// Components 5..15 (registry R16 only): mixed sizes and alignments, a second zero-sized type,
+// a second heap-owning type, a 16-byte and a 16-aligned one.
+pub struct C5(pub u32);
+pub struct C6(pub u64);
+pub struct C7(pub u16);
+pub struct C8(pub u8);
+pub struct C9;
+pub struct C10(pub Box<u64>);
+pub struct C11(pub u32);
+pub struct C12(pub u64, pub u64);
+pub struct C13(pub u32);
+#[repr(align(16))]
+pub struct C14(pub u64);
+pub struct C15(pub u32);
+tok_impl!(C5, 5, |t| C5(t as u32), |s: &C5| s.0 as u64, |s: &mut C5, t| s.0 = t as u32, |t: u64| t & 0xffff_ffff);
+tok_impl!(C6, 6, |t| C6(t), |s: &C6| s.0, |s: &mut C6, t| s.0 = t, |t| t);
+tok_impl!(C7, 7, |t| C7(t as u16), |s: &C7| s.0 as u64, |s: &mut C7, t| s.0 = t as u16, |t: u64| t & 0xffff);
+tok_impl!(C8, 8, |t| C8(t as u8), |s: &C8| s.0 as u64, |s: &mut C8, t| s.0 = t as u8, |t: u64| t & 0xff);
+tok_impl!(C9, 9, |_t| C9, |_s: &C9| 0u64, |_s: &mut C9, _t| (), |_t| 0u64);
+tok_impl!(C10, 10, |t| C10(Box::new(t)), |s: &C10| *s.0, |s: &mut C10, t| *s.0 = t, |t| t);
+tok_impl!(C11, 11, |t| C11(t as u32), |s: &C11| s.0 as u64, |s: &mut C11, t| s.0 = t as u32, |t: u64| t & 0xffff_ffff);
+tok_impl!(C12, 12, |t| C12(t, !t), |s: &C12| { assert_eq!(s.1, !s.0, "C12 payload torn"); s.0 }, |s: &mut C12, t| { s.0 = t; s.1 = !t; }, |t| t);
+tok_impl!(C13, 13, |t| C13(t as u32), |s: &C13| s.0 as u64, |s: &mut C13, t| s.0 = t as u32, |t: u64| t & 0xffff_ffff);
+tok_impl!(C14, 14, |t| C14(t), |s: &C14| s.0, |s: &mut C14, t| s.0 = t, |t| t);
+tok_impl!(C15, 15, |t| C15(t as u32), |s: &C15| s.0 as u64, |s: &mut C15, t| s.0 = t as u32, |t: u64| t & 0xffff_ffff);
+
 pub struct RA(pub u64);
 pub struct RB(pub u64);
+pub struct RC(pub u32);
+pub struct RD(pub Box<u64>);
 tok_impl!(RA, 100, |t| RA(t), |s: &RA| s.0, |s: &mut RA, t| s.0 = t, |t| t);
 tok_impl!(RB, 101, |t| RB(t), |s: &RB| s.0, |s: &mut RB, t| s.0 = t, |t| t);
+tok_impl!(RC, 102, |t| RC(t as u32), |s: &RC| s.0 as u64, |s: &mut RC, t| s.0 = t as u32, |t: u64| t & 0xffff_ffff);
+tok_impl!(RD, 103, |t| RD(Box::new(t)), |s: &RD| *s.0, |s: &mut RD, t| *s.0 = t, |t| t);
 
-pub type R5 = brood::Registry!(C0, C1, C2, C3, C4);
-pub type Res2 = brood::Resources!(RA, RB);
-pub type W5 = brood::World<R5, Res2>;
+pub type Res4 = brood::Resources!(RA, RB, RC, RD);
